@@ -546,12 +546,27 @@ def r04_12(ctx: Ctx) -> None:
         always = not cfg.reaches(body, it, avoid=dn, normal_only=True)
         trues = [r for r in walk(t.node) if isinstance(r, ast.Return) and r.value is not None and cfg.reaches(it, q.node_for(t, r)) and not any(x is r for x in ast.walk(lp))]
         for r in trues:
-            certifies = isinstance(r.value, ast.Constant) and r.value.value is True
+            certifies = any(isinstance(x, ast.Constant) and x.value is True for x in ast.walk(r.value))  # `return True`, `return True if flag else None`
             depends = any(isinstance(x, ast.Name) and x.id in skipped_flags for x in ast.walk(r.value)) or \
                 any(any(isinstance(x, ast.Name) and x.id in skipped_flags for x in ast.walk(cd)) for cd, pol in q.facts_at(t, r))
             ctx.check(always or depends or not certifies, "R04.12", t, r, "test() returns True only when every packed stream was verified",
                       "test() skips the packed streams that have no CRC and still ends in `return True`: damage in such a stream is certified as good while extractall() raises "
                       "CrcError for the same archive (partially defined packed-stream CRCs)", construct="test() verdict with unverified streams")
+        # the stored CRCs are a COMPACT list (one entry per defined stream): the cursor into it is a counter of its own, stepped by one in the arm
+        # that consumed an entry - and only there
+        for sub in [x for x in ast.walk(lp) if isinstance(x, ast.Subscript) and isinstance(x.slice, ast.Name) and "crcs" in norm(q.expand_locals(t, x.value)) + norm(x.value)]:
+            cur = sub.slice.id
+            loopvars = {x.id for x in ast.walk(lp.target) if isinstance(x, ast.Name)}
+            if cur in loopvars:
+                continue  # indexed by the stream number: R08.11 judges that convention
+            arm = next((st for st in ast.walk(lp) if isinstance(st, ast.If) and any(sub is x for b_ in st.body for x in ast.walk(b_))), None)
+            steps = [x for x in ast.walk(lp) if isinstance(x, ast.AugAssign) and isinstance(x.op, ast.Add) and norm(x.target) == cur]
+            in_arm = [x for x in steps if arm is not None and any(x is y for b_ in arm.body for y in ast.walk(b_)) and isinstance(x.value, ast.Constant) and x.value.value == 1]
+            inits = [n.value for n in walk(t.node) if isinstance(n, ast.Assign) and any(isinstance(tg, ast.Name) and tg.id == cur for tg in n.targets) and isinstance(n.value, ast.Constant)]
+            ok = len(steps) == 1 and len(in_arm) == 1 and bool(inits) and all(v.value == 0 for v in inits)
+            ctx.check(ok, "R04.12", t, sub, f"the cursor `{cur}` into the compact CRC list starts at 0 and is stepped by one per verified stream",
+                      f"test() reads `{norm(sub)}` but does not step `{cur}` by exactly one in the arm that consumed the entry (starting from 0): from the second defined stream on, the CRC of "
+                      "one stream is compared with the stored CRC of another - an intact archive is reported damaged, or damage goes unseen", construct="compact crc cursor in test()")
     h = ctx.prog.func("archiveinfo", "Header._read")
     def _is_crc(e: ast.AST) -> bool:
         return any(isinstance(x, ast.Call) and attr_tail(x) == "calculate_crc32" for x in ast.walk(e)) or \
@@ -627,7 +642,30 @@ def r04_16(ctx: Ctx) -> None:
         ctx.check(ok, "R04.16", shared.szf(ctx, "test"), c, "test() hashes stream i at its position with its size", "test() does not pass (position, packsizes[i]) to _read_digest", construct="test digest args")
 
 
+def r04_17(ctx: Ctx, rule: str = "R04.17") -> None:
+    """every CrcError of the extraction path is raised for a MISMATCH of a DEFINED digest, in that polarity: the raise stands under 'the stored
+    CRC is not None' (a member or folder without a stored CRC is legal and must be delivered) and under the false outcome of the comparison
+    (`computed != stored` true, `check_crc()` false).  The suite's fixtures all carry member CRCs and none a folder CRC on the main streams, so
+    neither a dropped guard nor an inverted folder check is visible to it."""
+    n = 0
+    for qual in ("Worker.decompress", "Worker._extract_single", "Worker._check"):
+        f = ctx.prog.func("py7zr", qual)
+        for r in [x for x in walk(f.node) if isinstance(x, ast.Raise) and x.exc is not None and isinstance(x.exc, ast.Call) and (dotted(x.exc.func) or "").endswith("CrcError")]:
+            n += 1
+            facts = q.facts_at(f, r)
+            defined = any((nt := q.is_none_test(cd)) is not None and "crc" in norm(nt[0]).lower() and nt[1] != pol for cd, pol in facts)
+            mismatch = any(isinstance(cd, ast.Compare) and len(cd.ops) == 1 and "crc" in norm(cd).lower() and not isinstance(cd.comparators[0], ast.Constant) and
+                           ((isinstance(cd.ops[0], ast.NotEq) and pol) or (isinstance(cd.ops[0], ast.Eq) and not pol)) for cd, pol in facts) or \
+                any(isinstance(cd, ast.Call) and attr_tail(cd) == "check_crc" and not pol for cd, pol in facts)
+            ctx.check(defined and mismatch, rule, f, r, f"{qual}: CrcError only for a mismatch of a stored CRC",
+                      f"{qual} raises CrcError " + ("without knowing that a CRC is stored (`... is not None` is not among the conditions): a member or folder without a digest - legal - cannot be "
+                                                    "extracted" if not defined else "under the wrong outcome of the comparison: data that matches its CRC is refused and data that does not is delivered"),
+                      construct=f"{qual} CrcError conditions")
+    ctx.floor(rule, n, 4, "CrcError raises on the extraction path")
+
+
 def run(ctx: Ctx) -> None:
+    r04_17(ctx)
     r04_16(ctx)
     r04_15(ctx)
     r04_14(ctx)
